@@ -387,6 +387,36 @@ func (x *Exec) evalCall(fc *frameCtx, st, old *State, e *CExpr, b binds) TV {
 	case "cbcount":
 		h := x.heapGet(st, "G:ghost.cbcount", SArrII)
 		return TV{mkApp("select", SInt, h, mkInt(0)), tInt}
+	case "elemref":
+		// the object ref of element i of a slice of structs (struct elements are laid out in place)
+		sv, ok := arg(0).V.(SliceV)
+		sl, ok2 := arg(0).T.Underlying().(*types.Slice)
+		if !ok || !ok2 {
+			oos("elemref: not a slice")
+		}
+		if _, isS := isStruct(sl.Elem()); !isS {
+			oos("elemref: elements are not structs")
+		}
+		return TV{tAdd(sv.Arr, tMul(tAdd(sv.Off, arg(1).V.(*Term)), mkInt(structSize(sl.Elem())))), tInt}
+	case "fieldat":
+		// fieldat("pkg.Type", "field", r): the value of an integer field of the struct object at ref r
+		pt := x.W.namedPtr(e.Args[0].SVal)
+		if pt == nil {
+			oos("fieldat: unknown type %s", e.Args[0].SVal)
+		}
+		nt := pt.(*types.Pointer).Elem()
+		sst, _ := isStruct(nt)
+		for f := 0; f < sst.NumFields(); f++ {
+			if sst.Field(f).Name() == e.Args[1].SVal {
+				h := x.heapGet(st, fieldKey(nt, sst, f), SArrII)
+				return TV{mkApp("select", SInt, h, arg(2).V.(*Term)), tInt}
+			}
+		}
+		oos("fieldat: no field %s", e.Args[1].SVal)
+	case "errcalls":
+		// ghost: number of calls of the parser's Error method made by the LR driver (E-DRV)
+		h := x.heapGet(st, "G:ghost.errcalls", SArrII)
+		return TV{mkApp("select", SInt, h, mkInt(0)), tInt}
 	case "cbarg":
 		h := x.heapGet(st, "G:ghost.cbarg", SArrII)
 		return TV{mkApp("select", SInt, h, mkInt(0)), tInt}
